@@ -37,6 +37,11 @@ def gen_case(rng, paired, thorough):
         pcfg, pairs = P.rand_pcase(rng, npairs=rng.randint(12, nmax))
         return {"paired": True, "cfg": pcfg, "records": pairs}
     cfg, reads = S.rand_case(rng, nreads=rng.randint(12, nmax))
+    if len(cfg.adapters) >= 2 and rng.random() < 0.2:
+        # adapters may share a name (records of an adapter FASTA with a repeated name, -g x=... -a x=...): the statistics of the
+        # workers are still merged adapter by adapter
+        import re
+        cfg.adapters = tuple((fl, re.sub(r"^ad\d+=", "same=", sp)) for fl, sp in cfg.adapters)
     return {"paired": False, "cfg": cfg, "records": reads}
 
 
